@@ -14,6 +14,7 @@ Handlers subtract by the exception class hierarchy (builtins + classes defined i
 from __future__ import annotations
 
 import ast
+import re
 from typing import Dict, List, Optional, Set, Tuple
 
 from . import regexast
@@ -114,6 +115,12 @@ class EscapeAnalysis:
             if base:
                 return (base[0], base[1] if e.func.attr in ("lower", "upper") else 0, base[2])
             return None
+        if isinstance(e, ast.BoolOp) and isinstance(e.op, ast.Or) and len(e.values) == 2:
+            # A or B on strings: A when it is non-empty, else B
+            a, b = self.str_lang(f, e.values[0], depth + 1), self.str_lang(f, e.values[1], depth + 1)
+            if a and b:
+                return (a[0] | b[0], min(max(a[1], 1), b[1]), f"({a[2]} or {b[2]})")
+            return None
         if isinstance(e, ast.Name):
             defs = self._defs_of(f, e.id)
             if not defs:
@@ -151,6 +158,74 @@ class EscapeAnalysis:
                 cs |= l[0]
             return (cs, mw, " | ".join(l[2] for l in langs))
         return None
+
+    INT_MAX_STR_DIGITS = 4300  # sys.int_max_str_digits default (CPython >= 3.11, and 3.7-3.10 security releases)
+
+    def str_maxlen(self, f: FuncInfo, e: ast.AST, depth: int = 0) -> Optional[int]:
+        """Upper bound of len(e) for a string expression, None if none is known."""
+        if depth > 6:
+            return None
+        if isinstance(e, ast.Constant) and isinstance(e.value, str):
+            return len(e.value)
+        if isinstance(e, ast.Subscript) and isinstance(e.slice, ast.Slice) and e.slice.step is None:
+            lo = const_int(e.slice.lower) if e.slice.lower is not None else 0
+            hi = const_int(e.slice.upper) if e.slice.upper is not None else None
+            if lo is not None and hi is not None and 0 <= lo <= hi:
+                return hi - lo
+            if e.slice.upper is None and lo is not None and lo < 0:
+                return -lo
+            return self.str_maxlen(f, e.value, depth + 1)
+        if isinstance(e, ast.Call) and isinstance(e.func, ast.Attribute) and e.func.attr in ("lower", "upper", "strip", "lstrip", "rstrip", "casefold") :
+            return self.str_maxlen(f, e.func.value, depth + 1)
+        if isinstance(e, ast.BoolOp):
+            parts = [self.str_maxlen(f, v, depth + 1) for v in e.values]
+            return None if any(x is None for x in parts) else max(parts)
+        if isinstance(e, ast.IfExp):
+            parts = [self.str_maxlen(f, v, depth + 1) for v in (e.body, e.orelse)]
+            return None if any(x is None for x in parts) else max(parts)
+        if isinstance(e, ast.Name):
+            defs = self._defs_of(f, e.id)
+            if not defs:
+                return None
+            out = []
+            for kind, node, extra in defs:
+                if kind == "groups":
+                    sp, _r = self._regex_of_match(f, extra[0])
+                    sub = regexast.group_subpattern(sp, extra[1] + 1) if sp is not None else None
+                    if sub is None:
+                        return None
+                    hi = sub.getwidth()[1]
+                    if hi >= 65535:
+                        return None
+                    out.append(int(hi))
+                elif kind == "split-elem":
+                    b = self.str_maxlen(f, extra[0], depth + 1)
+                    if b is None:
+                        return None
+                    out.append(b)
+                elif kind == "assign":
+                    b = self.str_maxlen(f, node, depth + 1)
+                    if b is None:
+                        return None
+                    out.append(b)
+                else:
+                    return None
+            # explicit length guards  `len(x) <= k` / `len(x) < k` among the predicates are handled by the caller
+            return max(out)
+        return None
+
+    def _digits_bounded(self, f: FuncInfo, call: ast.Call, arg: ast.AST) -> Tuple[bool, str]:
+        b = self.str_maxlen(f, arg)
+        if b is not None and b <= self.INT_MAX_STR_DIGITS:
+            return True, ""
+        if isinstance(arg, ast.Name):
+            a = arg.id
+            for p in self._guard_predicates(f, call, a):
+                m = re.fullmatch(rf"len\({re.escape(a)}\) (<=|<) (\d+)", p)
+                if m and int(m.group(2)) <= self.INT_MAX_STR_DIGITS:
+                    return True, ""
+        return False, (f"digit string `{norm(arg)}` of unbounded length: int() raises ValueError ('Exceeds the limit (4300 digits) for integer string conversion') "
+                       f"for more than sys.int_max_str_digits digits on CPython >= 3.11 - bound the length (slice, {{m,n}} in the regex, len() guard) before converting")
 
     def _defs_of(self, f: FuncInfo, name: str):
         """Definitions of a local name: list of (kind, node, extra)."""
@@ -233,7 +308,7 @@ class EscapeAnalysis:
             a = arg.id
             for p in preds:
                 if p in (f"{a}.isdecimal()", f"{a}.isascii() and {a}.isdigit()", f"{a}.isdigit() and {a}.isascii()"):
-                    return True, ""
+                    return self._digits_bounded(f, call, arg) if base == 10 else (True, "")
             for p in preds:
                 if p == f"{a}.isdigit()" or f"{a}.isdigit()" in p:
                     return False, f"guarded only by {a}.isdigit(), which is true for characters int() rejects (e.g. superscript digits like '²')"
@@ -248,6 +323,28 @@ class EscapeAnalysis:
                     if x.arg == a and x.annotation is not None and norm(x.annotation) == "str":
                         return False, f"string parameter `{a}` is not validated before conversion"
                 return True, ""  # untyped parameter: numeric by contract
+        # a sub-string of a validated name: slices and strips of `a` keep only characters of `a`; `<sub> or "<digits>"` cannot be empty
+        def derived(e):
+            if isinstance(e, ast.Name):
+                return e.id, True
+            if isinstance(e, ast.Subscript) and isinstance(e.slice, ast.Slice):
+                d = derived(e.value)
+                return (d[0], False) if d else None
+            if isinstance(e, ast.Call) and isinstance(e.func, ast.Attribute) and e.func.attr in ("strip", "lstrip", "rstrip") and not e.keywords:
+                d = derived(e.func.value)
+                return (d[0], False) if d else None
+            if isinstance(e, ast.BoolOp) and isinstance(e.op, ast.Or) and len(e.values) == 2 and isinstance(e.values[1], ast.Constant) and isinstance(e.values[1].value, str) and e.values[1].value.isascii() and e.values[1].value.isdigit():
+                d = derived(e.values[0])
+                return (d[0], True) if d else None
+            return None
+        dv = derived(arg) if not isinstance(arg, ast.Name) else None
+        if dv is not None and base == 10:
+            a = dv[0]
+            preds = self._guard_predicates(f, call, a)
+            if any(p in (f"{a}.isdecimal()", f"{a}.isascii() and {a}.isdigit()", f"{a}.isdigit() and {a}.isascii()") for p in preds):
+                if not dv[1]:
+                    return False, f"argument `{norm(arg)}` can be the empty string"
+                return self._digits_bounded(f, call, arg)
         lang = self.str_lang(f, arg)
         if lang is None:
             if isinstance(arg, ast.Name) and any(d[0] in ("other",) for d in self._defs_of(f, arg.id)):
@@ -270,6 +367,8 @@ class EscapeAnalysis:
                 if "DIGIT" in atom[1] and "NOT" not in atom[1] and base == 10:
                     continue
                 return False, f"argument ({desc}) can contain characters of category {atom[1].split('.')[-1]}"
+        if base == 10:
+            return self._digits_bounded(f, call, arg)
         return True, ""
 
     # -- per-function escape sets -----------------------------------------
